@@ -39,7 +39,33 @@ def plan(tier, seed):
     n = 600 if tier == 'quick' else 12000
     cases = [{'gen': i} for i in range(n)]
     cases += [{'prog': p} for p in corpus.names()]
+    cases += [{'tail': i} for i in range(150 if tier == 'quick' else 3000)]
     return cases
+
+
+# programs whose LAST statements change a setting that the FIRST statements depend on: one more pass must not see the setting
+# (each statement alone is valid in both settings, so the program is valid whatever the pass)
+TAIL_TARGETS = {
+    '6502': (['\tbyt\t10,11,12', '\tbyt\t"\\{200}"', '\tbyt\t"abc"', '\tadr\t1234', "\tbyt\t'a'", 'st\tstruct\nf\tdfs\t2\nst\tendstruct\n\tbyt\tst_len'],
+             ['\tradix\t16', '\tradix\t8', '\tradix\t2', '\toutradix\t10', '\toutradix\t2', "\tcharset\t'a','z',1", '\tcodepage\tzz', '\tenum\tq1,q2',
+              '\tdottedstructs\ton', '\trelaxed\ton', '\tmacexp\toff', '\tlisting\toff', '\tphase\t1000', '\torg\t500', 'v1\tset\t5', '\tpushv\tstk,v1']),
+    'z80': (['\tdb\t10,11,12', '\tdb\t"abc"', '\tdw\t1234', '\tdb\t"\\{200}"'],
+            ['\tradix\t16', '\tradix\t8', "\tcharset\t'a','z',1", '\toutradix\t10', '\trelaxed\ton', '\tz80syntax\texclusive', '\tphase\t100']),
+    '68000': (['\tdc.b\t1', '\tdc.w\t2', '\tdc.b\t3,4,5', '\tdc.l\t10', '\tdc.b\t"ab"'],
+              ['\tpadding\toff', '\tradix\t16', "\tcharset\t'a','z',1", '\tsupmode\ton', '\tfpu\ton', '\tpmmu\ton', '\tfullpmmu\ton']),
+    '8051': (['\tdb\t10', '\tdw\t1234h', '\tdb\t"abc"'],
+             ['\tbigendian\ton', '\tradix\t16', "\tcharset\t'a','z',1", '\tsrcmode\ton']),
+    'msp430': (['\tbyte\t1', '\tword\t2', '\tbyte\t3'], ['\tpadding\toff', '\tradix\t16']),
+    'atmega8': (['\tdata\t1,2', '\tdata\t"abc"'], ['\tpacking\ton', '\tradix\t16', '\twrapmode\ton']),
+}
+
+
+def gen_tail(rng):
+    cpu = rng.choice(sorted(TAIL_TARGETS))
+    head, tail = TAIL_TARGETS[cpu]
+    h = [x for x in head if rng.random() < 0.8] or head[:1]
+    t = rng.sample(tail, rng.randrange(1, min(4, len(tail)) + 1))
+    return cpu, '\tcpu\t%s\n' % cpu + '\n'.join(h) + '\n' + '\n'.join(t) + '\n', t
 
 
 def sx(v, bits):
@@ -129,6 +155,14 @@ def dec_6811(kind, b, a):
     elif kind == 'near':
         if len(b) == 2 and b[0] == 0x20:
             return (a + 2 + sx(b[1], 8)) & 0xffff, 'rel8'
+    elif kind in ('near-bitd', 'near-bitx', 'near-bity'):
+        # BRSET/BRCLR: opcode, operand byte, mask, relative offset counted from the following instruction
+        if kind == 'near-bitd' and len(b) == 4 and b[0] in (0x12, 0x13):
+            return (a + 4 + sx(b[3], 8)) & 0xffff, 'rel8'
+        if kind == 'near-bitx' and len(b) == 4 and b[0] in (0x1E, 0x1F):
+            return (a + 4 + sx(b[3], 8)) & 0xffff, 'rel8'
+        if kind == 'near-bity' and len(b) == 5 and b[0] == 0x18 and b[1] in (0x1E, 0x1F):
+            return (a + 5 + sx(b[4], 8)) & 0xffff, 'rel8'
     elif kind == 'word':
         if len(b) == 2:
             return b[0] << 8 | b[1], 'data'
@@ -152,7 +186,8 @@ TARGETS = {
     '6502': (dec_6502, {'load': 'lda\t%s', 'jump': 'jmp\t%s', 'near': 'bne\t%s', 'word': 'adr\t%s'}, 'byt', 'dfs', [0x00, 0x80, 0xE0, 0xF8, 0x100, 0x1000], 3, False),
     '68000': (dec_68000, {'branch': 'bra\t%s', 'call': 'bsr\t%s', 'jump': 'jmp\t%s', 'pcrel': 'lea\t%s(pc),a0', 'word': 'dc.l\t%s'}, 'dc.b', 'ds.b', [0x1000, 0x7F00, 0x7FF0, 0x10000], 6, True),
     '6809': (dec_6809, {'load': 'lda\t%s', 'jump': 'jmp\t%s', 'near': 'bra\t%s', 'long': 'lbra\t%s', 'word': 'fdb\t%s'}, 'fcb', 'rmb', [0x00, 0x80, 0xF0, 0x100, 0x1000], 3, False),
-    '6811': (dec_6811, {'load': 'ldaa\t%s', 'jump': 'jmp\t%s', 'near': 'bra\t%s', 'word': 'fdb\t%s'}, 'fcb', 'rmb', [0x00, 0x80, 0xF0, 0x100, 0x1000], 3, False),
+    '6811': (dec_6811, {'load': 'ldaa\t%s', 'jump': 'jmp\t%s', 'near': 'bra\t%s', 'near-bitd': 'brset\t$20,#$10,%s', 'near-bitx': 'brclr\t3,x,#$41,%s',
+               'near-bity': 'brset\t4,y,#$01,%s', 'word': 'fdb\t%s'}, 'fcb', 'rmb', [0x00, 0x80, 0xF0, 0x100, 0x1000], 3, False),
     '8086': (dec_8086, {'jump': 'jmp\t%s', 'word': 'dw\t%s'}, 'db', 'db', [0x100, 0x1000], 3, False),
 }
 
@@ -172,7 +207,8 @@ def gen(rng):
     uses_padding = False
     nfwd = 0
     exprs = [0]
-    far_kinds = [k for k in kinds if k != 'near']
+    far_kinds = [k for k in kinds if not k.startswith('near')]
+    near_kinds = [k for k in kinds if k.startswith('near')]
     size_budget = 200000 if cpu == '68000' else 60000
     big = cpu == '68000' and rng.random() < 0.3
     if big:
@@ -216,18 +252,19 @@ def gen(rng):
                 exprs[0] += 1
             add('\t' + kinds[kind] % expr, 'ref', (kind, lab))
             bump(maxsz)
-        elif k == 6 and 'near' in kinds:
+        elif k == 6 and near_kinds:
             # fixed short branch: only to a label that is provably within reach
             near = [l for l in placed if since[l] <= 100]
+            nk = rng.choice(near_kinds)
             if near and rng.random() < 0.5:
                 lab = rng.choice(near)
-                add('\t' + kinds['near'] % lab, 'ref', ('near', lab))
-                bump(2)
+                add('\t' + kinds[nk] % lab, 'ref', (nk, lab))
+                bump(5)
             elif pending:
                 lab = pending[0]
                 nfwd += 1
-                add('\t' + kinds['near'] % lab, 'ref', ('near', lab))
-                bump(2)
+                add('\t' + kinds[nk] % lab, 'ref', (nk, lab))
+                bump(5)
                 for _ in range(rng.randrange(0, 3)):
                     add('\t%s\t%d' % (bop, rng.randrange(256)))
                     bump(1)
@@ -299,6 +336,14 @@ def run_case(case, ctx):
         tag = prog.name
         stmts = None
         out.sample = {'corpus': prog.name}
+    elif 'tail' in case:
+        cpu, text, tailstm = gen_tail(ctx.rng)
+        src = 'g.asm'
+        ctx.write(src, text)
+        flags = []
+        tag = 'sticky tail #%d (%s: %s)' % (ctx.idx, cpu, ' / '.join(x.strip().replace('\t', ' ') for x in tailstm))
+        stmts = None
+        out.sample = {'tail': ctx.idx, 'cpu': cpu, 'source': text.split('\n')}
     else:
         cpu, base, text, stmts, nfwd, uses_padding = gen(ctx.rng)
         src = 'g.asm'
@@ -345,6 +390,9 @@ def run_case(case, ctx):
         else:
             out.inconc('pass cap reached without a repeated state')
         return
+    if (a.rc != 0 or a.p is None) and 'tail' in case:
+        out.obs['tail_programs_not_valid'] += 1
+        return
     if a.rc != 0 or a.p is None:
         if stmts is None:
             out.violate('golden-program-fails', '%s: rc=%s %s' % (tag, a.rc, a.run.text()[-300:]))
@@ -362,7 +410,17 @@ def run_case(case, ctx):
         if nb != npass + 1:
             out.inconc('extra pass hook did not add exactly one pass (%d -> %d)' % (npass, nb))
         elif a.p != b.p:
-            out.violate('extra-pass-changes-code', '%s: code file after %d passes differs from the one after %d passes' % (tag, nb, npass))
+            key = 'extra-pass-changes-code'
+            if 'tail' in case:
+                # which single tail statement is responsible?
+                for st in tailstm:
+                    ctx.write('t1.asm', text.replace('\n'.join(tailstm), st))
+                    x1 = asl.assemble(ctx, 't1.asm', flags, out='x1.p', extra_env=env_cap)
+                    x2 = asl.assemble(ctx, 't1.asm', flags, out='x2.p', extra_env={'ASL_VERIF_EXTRA_PASSES': '1'})
+                    if x1.rc == 0 and x2.rc == 0 and x1.p != x2.p:
+                        key += ':setting-survives-into-next-pass:' + st.split('\t')[1].upper()
+                        break
+            out.violate(key, '%s: code file after %d passes differs from the one after %d passes' % (tag, nb, npass))
         else:
             sa, sb = sym_dump(a.trace), sym_dump(b.trace)
             if sa != sb:
@@ -372,7 +430,7 @@ def run_case(case, ctx):
                 out.obs['extra_pass_identical'] += 1
     if stmts is None:
         out.nontrivial = True
-        out.sig = ('corpus', tag, npass)
+        out.sig = ('corpus' if 'prog' in case else 'tail', tag, npass)
         return
     # (b) three-way agreement
     dec = TARGETS[cpu][0]
